@@ -214,3 +214,38 @@ Print Assumptions C01_step.
 Theorem C01_calls_are_feed : forall P L s fuel, yields P s L -> (length L < fuel)%nat -> nd_all P fuel s = map Ok L.
 Proof. exact nd_all_yields. Qed.
 Print Assumptions C01_calls_are_feed.
+
+(* ---- typed descriptors in the PMT: no premise about descriptors left ----
+   C01_roundtrip_typed_desc: C01_roundtrip for streams whose descriptor loops hold any mix of the 23 typed DVB / MPEG
+   tags, unknown tags and user-defined tags (the 25 classes of C14's typed_rt; zero-item bodies included; each inside the
+   domain of its C14 round trip; loop below 4096 bytes), or no descriptors.  typed_desc (Proofs/PsiTypedDesc.v) asks for
+   the descriptors in the form parseDescriptors returns them -- Length = body size, only the body of the tag present
+   (Forall2 wf_entry ds ds) -- because that is the form in which the PMT listed by [expect] carries them;
+   C13_typed_desc_written / C14_parsed_form_is_normal: every list of C14's domain is written as the bytes of that form.
+   The four premises of C01_roundtrip are C13_typed_desc_premises (parseDescriptors at the loop's offset inside the
+   section: C14_loop_body_at_offset), C13_typed_desc_bytes, the empty loop, and the PMT size equation (from C14_len). *)
+Require Import Proofs.DescRoundTripAll Proofs.PsiTypedDesc Proofs.RoundTripTypedDesc.
+
+Theorem C01_roundtrip_typed_desc : forall period ops, history_ok typed_desc (new_muxer period) ops ->
+  demux_all (concat (map mout_bytes (snd (mux_run (new_muxer period) ops)))) =
+  map Ok (expect (new_muxer period) [] ops).
+Proof. exact roundtrip_history_typed. Qed.
+Print Assumptions C01_roundtrip_typed_desc.
+
+Theorem C01_roundtrip_per_pid_typed_desc : forall period ops, history_ok typed_desc (new_muxer period) ops ->
+  exists L, demux_all (concat (map mout_bytes (snd (mux_run (new_muxer period) ops)))) = map Ok L /\
+    forall x, x <> C_PIDPAT -> x <> C_pmtStartPID -> filter (on_x x) L = written_on x (new_muxer period) ops.
+Proof. exact roundtrip_per_pid_typed. Qed.
+Print Assumptions C01_roundtrip_per_pid_typed_desc.
+
+(* the hypotheses are satisfiable: the history of C01_roundtrip_inhabited with a stream that carries six descriptors of
+   five different classes (ISO 639 language, stream identifier, registration, a content descriptor without items,
+   maximum bitrate, a private descriptor); both PMTs that must come out list the stream with exactly these descriptors *)
+Example C01_roundtrip_typed_desc_inhabited :
+  history_ok typed_desc (new_muxer 40) rtt_hist /\
+  map DemuxerData_PID (expect (new_muxer 40) [] rtt_hist) = [0; 4096; 257; 0; 4096; 257] /\
+  map (fun d => match DemuxerData_PMT d with
+                | Some pmt => map PMTElementaryStream_ElementaryStreamDescriptors (PMTData_ElementaryStreams pmt)
+                | None => []
+                end) (expect (new_muxer 40) [] rtt_hist) = [[]; [ex_typed_loop]; []; []; [ex_typed_loop]; []].
+Proof. split; [exact rtt_history_ok|exact rtt_expect_shape]. Qed.
